@@ -58,6 +58,18 @@ func VHDeterminism() {
 	other := vNewFunctionStorer("zz")
 	b := vNewFunctionStorer(seed)
 	calls := vParam("CALLS", 2)
+	if vChoose("wide-first", 2) == 1 {
+		// a draw from a wide fixed range first: generators that differ give different values here whatever the
+		// arguments of the later calls are (a native replay compares real streams, which must not agree by chance)
+		ra, ea := a.call("dice", []*variable.Value{vNum(1000003)})
+		rb, eb := b.call("dice", []*variable.Value{vNum(1000003)})
+		vAssert(ea == nil && eb == nil && vKind(ra) == 0 && vKind(rb) == 0, "dice(1000003) succeeds")
+		if ea == nil && eb == nil && vKind(ra) == 0 && vKind(rb) == 0 {
+			ia, oka := vExactInt(*ra.Number)
+			ib, okb := vExactInt(*rb.Number)
+			vAssert(oka && okb && ia == ib, "same first draw for the same seed")
+		}
+	}
 	for i := 0; i < calls; i++ {
 		tag := "call" + vItoa(i)
 		var name string
@@ -142,6 +154,27 @@ func VHRandomStreams() {
 		if e == nil {
 			vAssert(0 <= *v.Number && *v.Number < 1, "random() is in [0,1) for every stream of the generator")
 			vReach("random")
+		}
+	case 3:
+		// two draws from the same generator whose ranges share a bound: what the first leaves behind (memoised sizes,
+		// limits, buffers) must not widen or shift the second
+		n := 1 + int(vByte("n")&31)
+		a := 1 + int(vByte("a")&31)
+		vAssume(a <= n)
+		v, e := fs.call("dice", []*variable.Value{vNum(float64(n))})
+		vAssert(e == nil && vKind(v) == 0, "dice(n) succeeds for n >= 1")
+		var w *variable.Value
+		if vChoose("same-upper", 2) == 1 {
+			w, e = fs.call("random_range", []*variable.Value{vNum(float64(a)), vNum(float64(n))})
+		} else {
+			w, e = fs.call("random_range", []*variable.Value{vNum(float64(1)), vNum(float64(a))})
+			n, a = a, 1
+		}
+		vAssert(e == nil && vKind(w) == 0, "random_range(a,b) succeeds for a <= b")
+		if e == nil && vKind(w) == 0 {
+			r, ok := vExactInt(*w.Number)
+			vAssert(ok && a <= r && r <= n, "random_range(a,b) after another draw is an integer in [a,b]")
+			vReach("second-draw")
 		}
 	}
 }
